@@ -141,6 +141,10 @@ pub struct Case {
     /// file writes complete later, scheduled by seed (see `SimConfig::defer_writes`)
     #[serde(default)]
     pub defer_writes: bool,
+    /// rate of injected errors / torn writes on segment log and index files while a send, flush or
+    /// background save is in progress (0 = none)
+    #[serde(default)]
+    pub disk_fault_rate: f64,
 }
 
 impl Case {
